@@ -850,23 +850,31 @@ def notifier_role(ctx, res):
                    and "has_traits" not in (p.type or "")]
         if len(tparams) < 2:
             continue
-        fn = facts.func(fname)
-        reads = [x for x in fn.walk() if x.kind == "MemberExpr"
-                 and x.name == "notifiers" and x.ch
-                 and strip(x.ch[0]).kind == "DeclRefExpr"
-                 and strip(x.ch[0]).ref in tparams]
-        for x in reads:
+        # resolved through the symbolic paths: locals (`tnotifiers`, an alias
+        # of a trait parameter) are replaced by what they hold
+        paths, _f, _g = paths_of(ctx, fname)
+        seen = {}
+        for p in paths:
+            for it in p.trace:
+                if it[0] != "call" or it[1] != "call_notifiers":
+                    continue
+                a0 = it[2][0]
+                m = re.fullmatch(r"(\w+)->notifiers", a0)
+                if not m or m.group(1) not in tparams:
+                    continue
+                seen.setdefault((m.group(1), it[4]), p)
+        for (who, line), p in sorted(seen.items()):
             n += 1
-            who = strip(x.ch[0]).ref
             key = f"{fname}:{who}->notifiers"
-            res.instance(key, facts.loc(x))
-            res.oblige(who == tparams[0], key, facts.loc(x),
+            res.instance(key, f"{CREL}:{line}")
+            res.oblige(who == tparams[0], key, f"{CREL}:{line}",
                        f"{fname} announces to `{who}->notifiers`: observers "
                        f"of (obj, name) are attached to `{tparams[0]}`, the "
                        f"trait the attribute was accessed through; for a "
                        f"delegated or prototyped attribute `{who}` is the "
                        f"target object's trait, so the change is not "
-                       f"reported (or is reported to the wrong observers)")
+                       f"reported (or is reported to the wrong observers)",
+                       _plines(p))
     res.floor(3)
 
 
